@@ -64,6 +64,7 @@ type Obligation struct {
 	Bounded bool
 	Results map[string]string
 	File    string // kept SMT query (sat / unknown answers)
+	Retried bool   // every solver timed out in the first pass; decided (or not) in the second pass with three times the budget
 }
 
 type Exec struct {
@@ -81,6 +82,7 @@ type Exec struct {
 	lgN      int
 	probe    *probeInfo
 	gWritten map[*ssa.Global]bool
+	aggFacts map[string]aggFact // facts about objects returned by connect's aggregator constructors (intrinsics_aggwire.go)
 	warnings map[string]bool
 	unverified string
 	paths    int
@@ -287,6 +289,11 @@ func (x *Exec) objField(st *State, o ObjV, i int) Value {
 		return o
 	}
 	f := stt.Field(i)
+	if o.Over != nil {
+		if v, ok := o.Over.f[i]; ok {
+			return v
+		}
+	}
 	path := o.Path + "." + f.Name()
 	if f.Embedded() {
 		path = o.Path // flatten embedded keepers
@@ -555,6 +562,23 @@ func (x *Exec) updPath(st *State, base Value, path []PathElem, v Value) Value {
 		}
 		return nl
 	}
+	if b, ok := base.(ObjV); ok && !pe.IsIndex && !pe.Deref && strings.HasPrefix(b.Path, "local_") {
+		// a field of an object allocated by the function under verification (a constructor)
+		if stt, ok := deref(b.Ty).Underlying().(*types.Struct); ok && pe.Field < stt.NumFields() {
+			no := &objOver{f: map[int]Value{}}
+			if b.Over != nil {
+				for k, ov := range b.Over.f {
+					no.f[k] = ov
+				}
+			}
+			if len(path) == 1 {
+				no.f[pe.Field] = v
+			} else {
+				no.f[pe.Field] = x.updPath(st, x.objField(st, b, pe.Field), path[1:], v)
+			}
+			return ObjV{Path: b.Path, Ty: b.Ty, Over: no}
+		}
+	}
 	x.fail("update path on %s", describe(base))
 	return base
 }
@@ -637,6 +661,10 @@ func (x *Exec) loadGlobal(st *State, g *ssa.Global) Value {
 	// an arbitrary value at every load otherwise (process memory: other calls may have written it)
 	if x.globalWritten(g) {
 		return x.freshTV("mutglobal_"+g.Name(), ty, st)
+	}
+	if iv, ok := x.initValue(st, g, 0); ok {
+		// never written outside its package initialiser, and the initialiser is a literal: that value
+		return iv
 	}
 	x.enc.DeclConst(name, x.enc.Sort(ty))
 	return TV{T: name, Ty: ty}
